@@ -485,5 +485,48 @@ def r18_10(ctx):
                     "converges" if want else "a rename line is skipped unchecked"), p.loc(skips[0])))
 
 
+def r18_11(ctx):
+    """R18.11 (a) a sub-menu or choice directly under `mainmenu` is as free in its prefix as one under `menu`: the exemption test of
+    check_common_prefix, folded for the level stacks [`mainmenu`] and [`menu`], holds for both; (b) a trailing comment never makes a
+    rename line wrong: every error test of SDKRenameChecker.process_line that can be folded for the tokens of `CONFIG_OLD CONFIG_NEW
+    #since v2` is false."""
+    from ..foldcheck import Unfoldable, fold_str_expr
+    from .common import expand_locals
+    repo = ctx.repo
+    c = repo.func(f"{MOD}:IndentAndNameChecker.check_common_prefix")
+    ctx.analysed(c.qual)
+    tests = [n.test for n in ast.walk(c.node) if isinstance(n, ast.If) and "level_stack[-1]" in ast.unparse(n.test) and ("'menu'" in ast.unparse(n.test).replace('"', "'"))]
+    if not tests:
+        raise AnchorError("check_common_prefix: the parent-menu exemption was not found")
+    t = tests[0]
+    for parent in ("mainmenu", "menu"):
+        construct = f"IndentAndNameChecker.check_common_prefix/entries under `{parent}` need not continue its prefix"
+        try:
+            v = bool(fold_str_expr(t, {"self.level_stack": [parent]}))
+        except Unfoldable as e:
+            raise AnalysisError(f"check_common_prefix: exemption test `{ast.unparse(t)[:60]}` cannot be folded ({e})")
+        (ctx.ok(construct, c.loc(t)) if v else
+         ctx.bad(construct, f"`{ast.unparse(t)[:70]}` is false with `{parent}` on top of the level stack: a compliant file is reported (`Common prefix ... should "
+                 "start with ...`) and no correction is offered", c.loc(t)))
+    p = repo.func(f"{MOD}:SDKRenameChecker.process_line")
+    ctx.analysed(p.qual)
+    prm = [a.arg for a in p.node.args.args if a.arg != "self"][0]
+    line = "CONFIG_OLD CONFIG_NEW #since v2\n"
+    env = {prm: line, "tokens": line.split(), "old_name": "CONFIG_OLD", "new_name": "CONFIG_NEW", "inversion": False}
+    n = 0
+    for st in ast.walk(p.node):
+        if isinstance(st, ast.If) and any(isinstance(x, ast.Raise) for x in st.body):
+            try:
+                v = bool(fold_str_expr(ast.parse(expand_locals(p.node, st.test), mode="eval").body, env))
+            except Unfoldable:
+                continue
+            n += 1
+            construct = f"SDKRenameChecker.process_line/`{ast.unparse(st.test)[:40]}` is no error for a line with a trailing `#comment`"
+            (ctx.ok(construct, p.loc(st)) if not v else
+             ctx.bad(construct, f"the well-formed line `{line.strip()}` raises an InputError: the file is reported in every pass and never converges", p.loc(st)))
+    if n < 2:
+        raise AnalysisError(f"only {n} foldable error tests in SDKRenameChecker.process_line")
+
+
 def rules():
-    return [("R18.10", r18_10, 7), ("R18.9", r18_9, 2), ("R18.8", r18_8, 1), ("R18.7", r18_7, 3), ("R18.1", r18_1, 3), ("R18.2", r18_2, 4), ("R18.3", r18_3, 3), ("R18.4", r18_4, 2), ("R18.5", r18_5, 4), ("R18.6", r18_6, 4)]
+    return [("R18.11", r18_11, 4), ("R18.10", r18_10, 7), ("R18.9", r18_9, 2), ("R18.8", r18_8, 1), ("R18.7", r18_7, 3), ("R18.1", r18_1, 3), ("R18.2", r18_2, 4), ("R18.3", r18_3, 3), ("R18.4", r18_4, 2), ("R18.5", r18_5, 4), ("R18.6", r18_6, 4)]
